@@ -628,9 +628,13 @@ class NameRecord(object):
         self.langID = safeEval(attrs["langID"])
         s = strjoin(content).strip()
         encoding = self.getEncoding()
-        if self.encodingIsUnicodeCompatible() or safeEval(
-            attrs.get("unicode", "False")
-        ):
+        # toXML() writes unicode="False" when the string could not be decoded (even in a
+        # Unicode-compatible encoding) and dumps it 8-bit: an explicit attribute wins
+        if "unicode" in attrs:
+            isUnicode = safeEval(attrs["unicode"])
+        else:
+            isUnicode = self.encodingIsUnicodeCompatible()
+        if isUnicode:
             self.string = s.encode(encoding)
         else:
             # This is the inverse of write8bit...
